@@ -125,6 +125,19 @@ static const ares_nameoffset_t *ares_nameoffset_find(ares_llist_t *list,
       continue;
     }
 
+    /* ... and that "." must be a label separator, not an escaped dot that is
+     * part of a label as in "my\.example.com" (an odd number of backslashes in
+     * front of it) */
+    if (prefix_len != 0) {
+      size_t nslash = 0;
+      while (nslash < prefix_len - 1 && name[prefix_len - 2 - nslash] == '\\') {
+        nslash++;
+      }
+      if (nslash % 2 != 0) {
+        continue;
+      }
+    }
+
     longest_match = val;
   }
 
